@@ -479,6 +479,7 @@ func checkMain(args []string, t *testing.T) int {
 	}
 	sort.Strings(sigs)
 	exit := 0
+	shrinks := 0
 	knownSeen := []string{}
 	newViol := 0
 	_ = os.MkdirAll(filepath.Join(VerifDir, "replays"), 0o755)
@@ -505,6 +506,10 @@ func checkMain(args []string, t *testing.T) int {
 			budget := 45 * time.Second
 			if *tier == "thorough" {
 				budget = 150 * time.Second
+			}
+			shrinks++
+			if shrinks > 4 {
+				budget = 8 * time.Second // many signatures: keep the check bounded
 			}
 			cmd := exec.Command(self(), "shrink", "-in", tmp, "-out", path, "-budget", budget.String())
 			cmd.Env = append(os.Environ(), "GOMAXPROCS=1")
